@@ -397,17 +397,17 @@ def sites_desc(r, keywords, n=None, reqresp=False, what="limits"):
 def site_cases(ctx):
     r = ctx.rng
     out = []
-    reps = 6 if ctx.quick else 60
+    reps = 10 if ctx.quick else 60
     add = lambda d: out.append({"op": "valid.sites", "in": {"desc": d}})
     for kw in SITE_KEYWORDS:                                         # every keyword, one at a time
         for i in range(reps):
             add(sites_desc(r, [kw], reqresp=(i % 3 == 2)))
     import itertools as it
     pairs = list(it.combinations(SITE_KEYWORDS, 2))                  # … and in pairs
-    for a, b in (pairs if not ctx.quick else pairs):
-        for i in range(1 if ctx.quick else 8):
+    for a, b in pairs:
+        for i in range(2 if ctx.quick else 8):
             add(sites_desc(r, [a, b], reqresp=r.random() < 0.25))
-    for i in range(20 if ctx.quick else 200):
+    for i in range(30 if ctx.quick else 200):
         add(sites_desc(r, [r.choice(SITE_KEYWORDS)], what=r.choice(["ann", "same"]), reqresp=r.random() < 0.25))
     return out
 
